@@ -79,7 +79,7 @@ register("C09", "props.c09", ["ValidaProofs.C09", "ValidaProofs.C09Spec"], 1500,
          "one case = a DSL term (every class x constructor pair twice, then random leaves and trees of depth<=3) and one spelling of "
          "its spec (letter case, type/dtype len/length in/in_ eq/equal_to aliases, list vs mapping arguments, type names / map / type "
          "objects); distinct = (class, callable) pairs; non-trivial = the term has at least one non-null leaf")
-register("C10", "props.c10", ["ValidaProofs.C10"], 1200, 30000,
+register("C10", "props.c10", ["ValidaProofs.C10", "ValidaProofs.C10Spec"], 1200, 30000,
          "30% part specs (long / shorthand forms, labels), 25% path specs with datum / multiplicity suffixes in both orders, 10% path "
          "strings, 35% rule specs (cast, every doc shape) also pushed through YAML text; each compared with the API-built object "
          "(equality and behaviour on documents grown along the path); distinct = shape tuples; non-trivial = accepted spec")
